@@ -321,6 +321,12 @@ func GenGrammar(t *rapid.T, o GenOpts) *Grammar {
 				if n >= 2 {
 					head = []*Expr{rf((i + 1) % n)}
 					tail = rapid.IntRange(0, 3).Draw(t, "unit") != 0
+					if rapid.IntRange(0, 2).Draw(t, "linkOrTerm") == 0 {
+						// the link is one of two alternatives: where the reference is curtailed the terminal
+						// still fails there, so the element returns an error together with a curtailed set
+						head = []*Expr{{K: KAny, Kids: []*Expr{rf((i + 1) % n), term()}}}
+						tail = true
+					}
 				}
 			case 4: // indirect ring with hidden links
 				if n >= 2 {
@@ -351,7 +357,11 @@ func GenGrammar(t *rapid.T, o GenOpts) *Grammar {
 			if tail {
 				kids = append(kids, gen(i, 1, false))
 			}
-			g.Rules[i] = &Expr{K: KAny, Kids: []*Expr{{K: KSeqOf, Kids: kids}, g.Rules[i]}}
+			seq := &Expr{K: KSeqOf, Kids: kids}
+			if o.Names && rapid.Bool().Draw(t, "skname") {
+				seq.Name = fmt.Sprintf("n%d", rapid.IntRange(0, 9).Draw(t, "sknameid"))
+			}
+			g.Rules[i] = &Expr{K: KAny, Kids: []*Expr{seq, g.Rules[i]}}
 			if rapid.Bool().Draw(t, "swap") {
 				k := g.Rules[i].Kids
 				k[0], k[1] = k[1], k[0]
